@@ -202,4 +202,15 @@ theorem padded_dec_nonmultiple_is_err {σ : Type} (mbs : Nat) (hm : 0 < mbs)
 theorem slice_init_iff (keyLen ivLen k i : Nat) : sliceInit keyLen ivLen k i = true ↔ (k = keyLen ∧ i = ivLen) := by
   simp [sliceInit]
 
+open Impl.MemWr Impl.MemCts Glue in
+/-- **`try_apply_keystream_partial` never panics**: for every length-regular core, every data length (0 and exactly one block
+    included) and both aliasing forms, the checked memory-level mirror returns `err` exactly when the dependency's check refuses —
+    and then nothing is written — and `ok` otherwise. Inside: `into_chunks`, `block[..n].copy_from_slice(..)` with `n ≤ bs`,
+    the length assertions of `xor_in2out` and `copy_from_slice`. -/
+theorem partial_total {σ : Type} {K : Core σ} {P : σ → Prop} (hK : LenCore K P) (w : Nat) (s : σ) (hP : P s)
+    (io : IOBuf) (hw : WF io) :
+    partialMem K w s io =
+      (if partialCheck K s io.len then .ok (applyPartialUnchecked K w s (src io)) else .err io.out) :=
+  partialMem_eq hK w s hP io hw
+
 end Thm.C13
